@@ -90,6 +90,12 @@ def run(e: Engine, rep: Report):
              '(SASL responses are read with it: a line cut at a length cap '
              'is a credential the client did not send)')
     c07.r715(e, rep, 'R8.14')
+    rep.rule('R8.15', 'a validator that fails has not accepted: an '
+             'exception out of the application\'s handle_* method leaves '
+             'SmtpSession._call_validator (no arm swallows it) - the reply '
+             'handed in starts as the success reply (235 for AUTH), so going '
+             'on after a failed validator authenticates the client')
+    r815(e, rep)
     rep.floor('R8.1', 1, 'socket swap sites')
 
 
@@ -1057,3 +1063,58 @@ def r813(e: Engine, rep: Report):
     if n < 5:
         rep.error('anchor vanished: handlers of SmtpSession taking a reply '
                   '(%d < 5)' % n)
+
+
+# ------------------------------------------------------------------ R8.15
+def r815(e: Engine, rep: Report):
+    ctx = e.method_ctx(SESSION, '_call_validator')
+
+    def is_validator_call(n):
+        # getattr(self.validators, method)(*args) / a bound method of
+        # self.validators put in a local first
+        if n.kind != 'call':
+            return False
+        f = n.ast.func
+        txt = ast.unparse(f)
+        if 'validators' in txt and not txt.startswith('hasattr') and \
+                not (isinstance(f, ast.Name) and f.id in ('getattr',
+                                                          'hasattr')):
+            return True
+        if isinstance(f, ast.Name):
+            fn = n.frame.ctx.func
+            ds = [a.value for a in walk_own(fn.node)
+                  if isinstance(a, ast.Assign) and any(
+                      isinstance(t, ast.Name) and t.id == f.id
+                      for t in a.targets)]
+            return bool(ds) and all('validators' in ast.unparse(d)
+                                    for d in ds)
+        return False
+    g = e.build(ctx, raises=lambda b, n, r: {'builtins.Exception'}
+                if is_validator_call(n) else set(), assert_raises=False,
+                inline=e.inline_same_self(), max_depth=3)
+    where = ctx.func.qname
+    rep.functions.add(where)
+    calls = [n for n in g.nodes if is_validator_call(n)]
+    if not calls:
+        rep.error('anchor vanished: the validator call in '
+                  'SmtpSession._call_validator')
+        return
+    for c in calls:
+        rep.evaluations += 1
+        # a way from the failing call to the normal end of the function
+        caught = [s2 for l, s2 in c.succ if isinstance(l, tuple) and
+                  s2.kind == 'handler']
+        pth = None
+        for h in caught:
+            pth = pth or dataflow.find_path(
+                g, h, lambda x: x is g.exit,
+                edge_ok=lambda a, l, s2: not isinstance(l, tuple))
+        rep.check(pth is None, 'R8.15', where,
+                  'an exception of the validator leaves _call_validator',
+                  'an exception raised by the application\'s validator is '
+                  'caught and the session goes on: for AUTH the reply is '
+                  'still the default 235, so the server marks the session '
+                  'authenticated although the application never accepted '
+                  'the credentials', loc=c.loc(),
+                  reason='no arm around the call completes normally',
+                  witness=dataflow.render_path(pth, 12) if pth else None)
